@@ -362,6 +362,10 @@ func mashDrive(args []string) error {
 				d := mash.FromJaccard(1, k)
 				evs = append(evs, mashEvRaw{op: "fromjaccard", k: k, jn: den, jd: den, d: fix8(d), note: "one"})
 			}
+			for p := 14; p >= 1; p-- { // small Jaccard values 2^-p (second table of the specification)
+				d := mash.FromJaccard(1/float64(int(1)<<p), k)
+				evs = append(evs, mashEvRaw{op: "fromjaccard", k: k, jn: 1, jd: 1 << p, d: fix8(d), note: "power of two"})
+			}
 		}
 
 		// projection: rank of every 64-bit value of the session
